@@ -171,6 +171,20 @@ class CFGBuilder(AstVisitor[BB | None]):
         return self._build_node_value(node, bb)
 
     def visit_AugAssign(self, node: ast.AugAssign, bb: BB, jumps: Jumps) -> BB | None:
+        # `xs[i] += v` is later desugared to `xs[i] = xs[i] + v`, which mentions the index
+        # twice. Bind index expressions to temporaries first (innermost subscript first),
+        # so that they are only evaluated once.
+        subscripts = []
+        target = node.target
+        while isinstance(target, ast.Subscript):
+            subscripts.append(target)
+            target = target.value
+        for subscript in reversed(subscripts):
+            if not isinstance(subscript.slice, ast.Name | ast.Constant):
+                index, bb = ExprBuilder.build(subscript.slice, self.cfg, bb)
+                tmp = next(tmp_vars)
+                ExprBuilder._tmp_assign(tmp, index, bb)
+                subscript.slice = make_var(tmp, index)
         return self._build_node_value(node, bb)
 
     def visit_AnnAssign(self, node: ast.AnnAssign, bb: BB, jumps: Jumps) -> BB | None:
